@@ -1433,11 +1433,9 @@ export class AllOfRuntype extends BaseRuntype {
     });
   }
   validate(ctx: ValidateContext, input: unknown): boolean {
+    // a value belongs to an intersection when it belongs to every member, whatever its kind
+    // (string & string, ("a" | "b") & ("b" | "c"), (A | undefined) & (B | undefined))
     for (const it of this.schemas) {
-      const isObj = typeof input === "object";
-      if (!isObj) {
-        return false;
-      }
       if (!it.validate(ctx, input)) {
         return false;
       }
@@ -1445,6 +1443,9 @@ export class AllOfRuntype extends BaseRuntype {
     return true;
   }
   parseAfterValidation(ctx: ParseContext, input: any): unknown {
+    if (typeof input !== "object" || input === null) {
+      return input;
+    }
     let acc = {};
     for (const it of this.schemas) {
       const parsed = it.parseAfterValidation(ctx, input);
